@@ -308,10 +308,19 @@ def run(repo: Repo, rep: Report, tier: str) -> None:
         ok = "op.left" in lo and "op.right" not in lo and "op.right" in ro and "op.left" not in ro and opr in ("op.op", "op.test_op")
         rep.check(ok, "C01-R4", f"{mname}: left_operand from op.left, right_operand from op.right, operation from the node", f"{lo} / {ro} / {opr}", m.loc(c[0]))
     em = repo.cls("PlanEntityEmitter")
+    from ..sides import mirrored_stores
     for fn in ("_configure_decider", "_configure_arithmetic"):
+        mirrored, mproblems = mirrored_stores(repo, em.methods[fn])
+        for mp in mproblems:
+            rep.bad("C01-R4", f"{fn}: comparator mirror table", mp, em.methods[fn].loc())
         for key, side, slot, node in side_flows(em.methods[fn]):
             ss = slot_side(slot)
             if ss is not None:
+                if id(node) in mirrored:
+                    # constant-first comparison emitted from the other side, with the mirrored comparator: right operand -> first slot, left operand -> constant
+                    okm = (side == "right" and ss == "left") or (side == "left" and ss == "either")
+                    rep.check(okm, "C01-R4", f"{fn}: '{key}' feeds {slot} (mirrored comparison)", "sides swapped together with the comparator" if okm else "operand sides inconsistent in the mirrored branch", em.methods[fn].loc(node))
+                    continue
                 rep.check(ss in (side, "either"), "C01-R4", f"{fn}: '{key}' feeds {slot}", "sides agree" if ss in (side, "either") else "operand sides crossed", em.methods[fn].loc(node))
     ca = em.methods["_configure_arithmetic"]
     cca = Canon(ca)
@@ -458,3 +467,45 @@ def run(repo: Repo, rep: Report, tier: str) -> None:
     rep.check(bool(ex11), "C01-R11", "constants taking part in a wire merge are always placed",
               "sources of IRWireMerge are exported" if ex11 else
               "IRWireMerge.sources are only recorded as consumers: `Signal s = inp + (5 | \"signal-I\");` loses the 5, s equals inp", an11.loc())
+
+    # ---------------- R12 --------------------------------------------------------------
+    rep.rule("C01-R12", "a comparison is emitted with its own operands: on no path through the decider configurators does one condition receive both a `constant` and a `second_signal` "
+             "(the game then compares the first signal with the second signal and ignores the constant: `5 < a` would become `signal-0 < a`); a constant on the left "
+             "is mirrored to the right instead")
+    def _key_paths(stmts, states, dict_names):
+        """all sets of keys stored into the condition dict along the paths through `stmts` (branch feasibility ignored)"""
+        for st in stmts:
+            if isinstance(st, ast.If):
+                a_ = _key_paths(st.body, set(states), dict_names)
+                b_ = _key_paths(st.orelse, set(states), dict_names)
+                states = a_ | b_
+            elif isinstance(st, (ast.For, ast.While, ast.With, ast.Try)):
+                states = _key_paths(getattr(st, "body", []), states, dict_names)
+            elif isinstance(st, ast.Assign) and isinstance(st.targets[0], ast.Subscript) and isinstance(st.targets[0].value, ast.Name) and st.targets[0].value.id in dict_names \
+                    and isinstance(st.targets[0].slice, ast.Constant):
+                states = {s_ | {st.targets[0].slice.value} for s_ in states}
+        return states
+    n12 = 0
+    for fname in ("PlanEntityEmitter._configure_decider", "PlanEntityEmitter._configure_decider_multi_condition"):
+        f12 = repo.func(fname)
+        # the condition dict: a local initialised with a dict display that has the key 'comparator'
+        inits = [n for n in walk_local(f12.node) if isinstance(n, (ast.Assign, ast.AnnAssign)) and isinstance(n.value, ast.Dict)
+                 and any(isinstance(k, ast.Constant) and k.value == "comparator" for k in n.value.keys)]
+        if not inits:
+            raise AnalysisError(f"C01-R12: condition dict not found in {fname}")
+        for init in inits:
+            tgt = init.targets[0] if isinstance(init, ast.Assign) else init.target
+            name = tgt.id
+            # statements that follow the initialisation in its own block
+            pm12 = parents_map(f12.node)
+            blk = pm12[init]
+            seq = next(getattr(blk, fld) for fld in ("body", "orelse", "finalbody") if init in getattr(blk, fld, []))
+            rest = seq[seq.index(init) + 1:]
+            start = frozenset(k.value for k in init.value.keys if isinstance(k, ast.Constant))
+            paths = _key_paths(rest, {start}, {name})
+            n12 += 1
+            bad12 = sorted(tuple(sorted(p_)) for p_ in paths if {"constant", "second_signal"} <= p_)
+            rep.check(not bad12, "C01-R12", f"{f12.short}: no condition carries a constant and a second signal together",
+                      f"{len(paths)} key combinations, none has both" if not bad12 else
+                      f"a path stores {list(bad12[0])}: with the left operand a constant and the right one a signal the constant is ignored, `5 < a` is evaluated as `signal-0 < a`", f12.loc(init))
+    rep.floor("C01-R12", "condition dicts analysed", n12, 2)
